@@ -195,6 +195,56 @@ extern "C" void h_execute() {
   ASSERT(0, "WITNESS: end of h_execute reachable");
 }
 
+// ---------------------------------------------------------------------------------------------------------
+// C18: distinct VM instances never influence one another: any call on one machine leaves every field of another machine unchanged
+extern "C" void h_two_vms() {
+  Program p; VM vm(p); Ghost g; int n; Sites s;
+  build(vm, g, n, true, s);
+  // a second machine on the same program in an arbitrary (unrelated) state
+  VM other(vm.code);
+  int oip = nondet_int(); ASSUME(oip >= 0 && oip < n); other.instruction_pointer = oip;
+  other.stepping_mode_enabled = nondet_bool();
+  V_SETN(other.data, VM_DW, 0);
+  for (int i = 0; i < VM_DW; i++) V_AT(other.data, i) = nondet_int();
+  int odn = nondet_int(); ASSUME(odn >= 0 && odn <= VM_DW); V_SETN(other.data, odn, 0);
+  V_SETN(other.stack, 1, VM::Activation(&other, 0, 0, 0, 0, 0));
+  V_AT(other.stack, 0) = VM::Activation(&other, 0, nondet_int(), nondet_int(), nondet_int(), nondet_int());
+  for (int k = 0; k < VM_NSITE; k++) if (k < s.nsite) V_AT(other.code.code, s.site[k]).op = nondet_bool() ? OpCode::BREAK : OpCode::POTENTIAL_BREAK;
+  Snap before, after; snap(other, before);
+  Program code_before = other.code; bool step_before = other.stepping_mode_enabled; int en_before = V_N(other.enabled_breakpoints);
+  int kind = nondet_int(); ASSUME(kind >= 0 && kind <= 4); CEX_op_kind = kind;
+  int af = nondet_int(); ASSUME(af >= 0 && af <= 1);
+  switch (kind) {
+    case 0: vm.executeSingle(); break;
+    case 1: vm.reset(); break;
+    case 2: vm.setBreakPoint(fname(af), nondet_int(), nondet_bool()); break;
+    case 3: vm.clearBreakpoints(); break;
+    case 4: vm.setSteppingMode(nondet_bool()); break;
+  }
+  snap(other, after);
+  bool same = snap_eq(before, after) && other.stepping_mode_enabled == step_before && V_N(other.enabled_breakpoints) == en_before && V_N(other.code.code) == V_N(code_before.code);
+  for (int i = 0; i < VM_L; i++) if (i < n) same = same && V_AT(other.code.code, i).op == V_AT(code_before.code, i).op && V_AT(other.code.code, i).parameters.test.target == V_AT(code_before.code, i).parameters.test.target;
+  ASSERT(same, "C18: a call on one VM instance changes no field of another instance");
+  ASSERT(0, "WITNESS: end of h_two_vms reachable");
+}
+
+// C18: the only writable globals of the VM library (the opcode name table) are never written by the code that reads them
+#ifdef MINISTL
+extern std::string op_to_str[];
+extern "C" void h_globals_vm() {
+  Program p; VM vm(p); Ghost g; int n; Sites s;
+  build(vm, g, n, true, s);
+  std::string snap0[11]; for (int i = 0; i < 11; i++) snap0[i] = op_to_str[i];
+  std::ostream o;
+  vm.code.disassemble(o);
+  std::set<BreakPoint> av = vm.code.getAvailableBreakpoints();
+  bool same = true; for (int i = 0; i < 11; i++) same = same && snap0[i].n == op_to_str[i].n && snap0[i].b[0] == op_to_str[i].b[0] && snap0[i].b[1] == op_to_str[i].b[1] && snap0[i].b[2] == op_to_str[i].b[2];
+  ASSERT(same, "C18: the opcode name table (a writable global) is not modified by disassembling a program");
+  ASSERT((int)av.size() == s.nloc, "C08: the list of available breakpoints has one entry per location of the table");
+  ASSERT(0, "WITNESS: end of h_globals_vm reachable");
+}
+#endif
+
 #ifndef MINISTL
 NATIVE_MAIN(NATIVE_ENTRY)
 #endif
